@@ -1,27 +1,41 @@
 /- Line-protocol driver: one JSON case per input line, one JSON result per output line. -/
 import Driver.Common
 import Driver.Store
+import Driver.C02
+import Driver.C03
+import Driver.C05
+import Driver.C06
+import Driver.C08
+import Driver.C09
+import Driver.C10
+import Driver.C11
+import Driver.C12
+import Driver.C13
+import Driver.C14
+import Driver.C15
+import Driver.C18
+import Driver.C19
+import Driver.C20
 
 open Lean
 
-def runLine (line : String) : String :=
-  match Json.parse line with
-  | .error e => (Json.mkObj [("id", .null), ("err", .str ("parse: " ++ e))]).compress
-  | .ok j =>
-    let id := (j.getObjVal? "id").toOption.getD .null
-    let out := match Driver.str! j "kind" with
-      | "store" => Driver.Store.runCase j
-      | k => Json.mkObj [("err", .str ("unknown kind " ++ k))]
-    (Json.mkObj [("id", id), ("out", out)]).compress
+def handler (k : String) (j : Json) : Json :=
+  if k == "store" then Driver.Store.runCase j else
+    if k == "c02" || k.startsWith "c02:" then Driver.C02.runCase j else
+    if k == "c03" || k.startsWith "c03:" then Driver.C03.runCase j else
+    if k == "c05" || k.startsWith "c05:" then Driver.C05.runCase j else
+    if k == "c06" || k.startsWith "c06:" then Driver.C06.runCase j else
+    if k == "c08" || k.startsWith "c08:" then Driver.C08.runCase j else
+    if k == "c09" || k.startsWith "c09:" then Driver.C09.runCase j else
+    if k == "c10" || k.startsWith "c10:" then Driver.C10.runCase j else
+    if k == "c11" || k.startsWith "c11:" then Driver.C11.runCase j else
+    if k == "c12" || k.startsWith "c12:" then Driver.C12.runCase j else
+    if k == "c13" || k.startsWith "c13:" then Driver.C13.runCase j else
+    if k == "c14" || k.startsWith "c14:" then Driver.C14.runCase j else
+    if k == "c15" || k.startsWith "c15:" then Driver.C15.runCase j else
+    if k == "c18" || k.startsWith "c18:" then Driver.C18.runCase j else
+    if k == "c19" || k.startsWith "c19:" then Driver.C19.runCase j else
+    if k == "c20" || k.startsWith "c20:" then Driver.C20.runCase j else
+    Json.mkObj [("err", .str ("unknown kind " ++ k))]
 
-partial def loop (h : IO.FS.Stream) (out : IO.FS.Stream) : IO Unit := do
-  let line ← h.getLine
-  if line.isEmpty then return ()
-  let l := line.trimAscii.toString
-  if !l.isEmpty then out.putStrLn (runLine l)
-  loop h out
-
-def main : IO Unit := do
-  let out ← IO.getStdout
-  loop (← IO.getStdin) out
-  out.flush
+def main : IO Unit := Driver.mainLoop handler
